@@ -1,6 +1,7 @@
 import Fabio.Driver.Proto
 import Fabio.Model.C18
 import Fabio.Model.C18Exit
+import Fabio.Model.C18System
 namespace Fabio.Driver.C18
 open Lean Fabio.Driver Fabio.Model.C18
 
@@ -176,7 +177,9 @@ def processH : Handler := fun inp impl => do
     ++ (if via == "grpc" then [.single { kind := .grpc, work := two }] else [])
     ++ (if dynamic then [.single { kind := .tcp, work := [] }] else [])
   -- signal at tick 0: the handler sleeps the grace period, calls proxy.Shutdown(wait), the process ends when it returns
-  let exit := processExit wsContract contract 0 grace wait servers
+  -- `hups` ignored SIGHUPs first; then the process is what `exit` makes of the SIGTERM
+  let hups := (inp.getObjValAs? Nat "hups").toOption.getD 0
+  let exit := Fabio.Model.C18System.processEnd .reselects wsContract contract hups (.sig .term) 0 grace wait servers
   let m := Json.mkObj [("exit", Json.str (durStr (durClass 0 (grace + wait) exit))), ("accepted_after", false), ("order_ok", true),
                        ("short_completed", Json.bool (processFate exit short == .completed))]
   let core := Json.mkObj [
@@ -190,7 +193,7 @@ def processH : Handler := fun inp impl => do
     let sp := ex != "over" && !acc && ord && sh
     let second := (inp.getObjValAs? String "second").toOption.getD ""
     let base := (if dynamic then "dynamic" else "static") ++ (if second != "" then "+second-signal" else "")
-      ++ (if via == "http" then "+http-request" else if via == "ws" then "+websocket" else if via == "grpc" then "+grpc-stream" else "") ++ (if notcp then "+no-tcp-listener" else "")
+      ++ (if hups > 0 then "+after-sighup" else "") ++ (if via == "http" then "+http-request" else if via == "ws" then "+websocket" else if via == "grpc" then "+grpc-stream" else "") ++ (if notcp then "+no-tcp-listener" else "")
     let tag := if acc then base ++ "-listener-accepts-after-shutdown" else if !sh then base ++ "-short-work-cut"
                else if !ord then base ++ "-closed-during-grace" else if ex == "over" then base ++ "-exit-late" else base
     return ({ model := m, agree := m == core, spec := sp, nontrivial := true, tag := tag } : Verdict).toJson
